@@ -70,14 +70,15 @@ Fixpoint canon_val (v : val) : val :=
 
 (* events as the harness can see them: context creation/cancellation are not directly visible *)
 Definition visible (e : uev) : bool :=
-  match e with UCtxCancel _ => false | _ => true end.
+  match e with UCtxCancel => false | _ => true end.
 Definition uev_eqb (a b : uev) : bool :=
   match a, b with
   | UDraw x, UDraw y => val_eqb (canon_val x) (canon_val y)
   | USignal k m i, USignal k' m' i' => fk_eqb k k' && msg_eqb m m' && Nat.eqb i i'
   | USkip m, USkip m' => msg_eqb m m'
-  | UReg i, UReg j | URun i, URun j | UCtxNew i, UCtxNew j | UAct i, UAct j | UCustomEnd i, UCustomEnd j => Nat.eqb i j
-  | UCtxSeen i b, UCtxSeen j c => Nat.eqb i j && Bool.eqb b c
+  | UReg i, UReg j | URun i, URun j | UAct i, UAct j | UCustomEnd i, UCustomEnd j => Nat.eqb i j
+  | UCtxSeen b, UCtxSeen c => Bool.eqb b c
+  | UCtxNew, UCtxNew => true
   | UFailedSeen b, UFailedSeen c => Bool.eqb b c
   | ULog n, ULog m => N.eqb n m
   | UChk, UChk | UCustomBegin, UCustomBegin => true
@@ -108,7 +109,7 @@ Section Run.
   Definition LVL0 : nat := 6.
   Definition model_run (p : pexp) (x : runsrc) : out unit :=
     checkOnce (geom_of tab) LF0 LVL0 (compile_p [] p)
-      (start (match x with OnBuf l => SBuf l | OnSeed s => SRnd (jsf_init s) end) 0).
+      (start (match x with OnBuf l => SBuf l | OnSeed s => SRnd (jsf_init s) end)).
 
   (* which observables disagree: 1 result, 2 recorded data, 3 groups, 4 pruned data (interpreter's rpd),
      5 pruned data (index-based prune of the model's own recording), 6 events *)
